@@ -7,7 +7,7 @@ use crate::refenc::{self, W};
 use serde_json::json;
 use tls_parser::*;
 
-pub const RULE: &str = "concatenations of 0..20 reference-encoded valid TLS (resp. DTLS) records followed by nothing / a strict prefix of a record / an oversized header / an unknown content type / garbage / a record with malformed content, and byte-mutated variants; oracle = explicit loop over the single-record parser on the real crate (differential). tls_parser vs parse_tls_plaintext compared (value, remainder address, error kind, error position) on the same inputs. distinct_nontrivial = distinct (family, #records, tail kind, loop outcome, many outcome) tuples";
+pub const RULE: &str = "concatenations of 0..600 reference-encoded valid TLS (resp. DTLS) records followed by nothing / a strict prefix of a record / an oversized header / an unknown content type / garbage / a record with malformed content, and byte-mutated variants; oracle = explicit loop over the single-record parser on the real crate (differential). tls_parser vs parse_tls_plaintext compared (value, remainder address, error kind, error position) on the same inputs. distinct_nontrivial = distinct (family, #records, tail kind, loop outcome, many outcome) tuples";
 pub const ASSUMPTIONS: &[&str] = &["the single-record parsers are the reference (they are judged by C02/C03/C10)"];
 
 #[derive(Clone, Copy, Debug, Hash, PartialEq, Eq)]
@@ -54,7 +54,12 @@ pub fn run(ctx: &mut Ctx) {
     let n = ctx.tier.pick(10_000, 100_000);
     ctx.family("tls", n, |ctx, case: &mut Case| {
         let r = &mut case.rng;
-        let kmax = if r.chance(1, 10) { 20 } else { 4 };
+        let kmax = match r.below(40) {
+            0 => 600,
+            1 | 2 => 130,
+            3..=6 => 20,
+            _ => 4,
+        };
         let k = if r.chance(1, 8) { 0 } else { r.usize(1, kmax) };
         let mut buf = Vec::new();
         for _ in 0..k {
@@ -133,7 +138,12 @@ pub fn run(ctx: &mut Ctx) {
     let n = ctx.tier.pick(10_000, 100_000);
     ctx.family("dtls", n, |ctx, case: &mut Case| {
         let r = &mut case.rng;
-        let kmax = if r.chance(1, 10) { 20 } else { 4 };
+        let kmax = match r.below(40) {
+            0 => 600,
+            1 | 2 => 130,
+            3..=6 => 20,
+            _ => 4,
+        };
         let k = if r.chance(1, 8) { 0 } else { r.usize(1, kmax) };
         let mut buf = Vec::new();
         for _ in 0..k {
